@@ -492,7 +492,12 @@ func polygamma_imp(n int, x float64) float64 {
       result = -result
     }
     if math.Abs(result) >= math.MaxFloat64*math.Pow(2.0, float64(-n-1)) {
-      return math.Inf(-1)
+      // overflow, the sign is that of the result (positive for odd n)
+      if result < 0 {
+        return math.Inf(-1)
+      } else {
+        return math.Inf(1)
+      }
     }
     result *= math.Pow(2.0,  float64(n + 1)) - 1.0
 
